@@ -31,6 +31,7 @@ type Prog struct {
 	strlits   map[string]int
 	usedRec   map[string]bool
 	recCache  map[string]string
+	gconst    map[*ssa.Global]bool
 }
 
 func pkgKeyOf(path string) (string, bool) {
@@ -219,4 +220,29 @@ func (P *Prog) loopInfo(f *ssa.Function) *LoopInfo {
 	}
 	P.loops[f] = li
 	return li
+}
+
+// globalConst reports whether a package-level variable is only written by its package initialiser.
+func (P *Prog) globalConst(g *ssa.Global) bool {
+	if v, ok := P.gconst[g]; ok {
+		return v
+	}
+	res := true
+	for fn := range ssautil.AllFunctions(P.prog) {
+		if fn.Name() == "init" || strings.HasPrefix(fn.Name(), "init#") {
+			continue
+		}
+		for _, b := range fn.Blocks {
+			for _, in := range b.Instrs {
+				if s, ok := in.(*ssa.Store); ok && s.Addr == ssa.Value(g) {
+					res = false
+				}
+			}
+		}
+	}
+	if P.gconst == nil {
+		P.gconst = map[*ssa.Global]bool{}
+	}
+	P.gconst[g] = res
+	return res
 }
